@@ -41,7 +41,7 @@ ASSUMPTIONS = [
 ]
 REQUIRED = ["tree_form_checked", "table_form_checked", "file_form_checked", "idempotence_checked",
             "tap_sort_nodes_impl", "is_sorted_true", "tree_root_not_at_0"]
-FLOOR = {"quick": 1500, "thorough": 30000}
+FLOOR = {"quick": 1000, "thorough": 20000}
 SHARDS = {"quick": 8, "thorough": 16}
 
 STD = ["id", "type", "x", "y", "z", "r", "pid"]
